@@ -13,9 +13,9 @@ RULE = ("fixed catalogue of input families f(n) (nested parentheses, nested refe
         ' Correspondence of the cost model: Fp.Expr.chainCalls (the subject of the parse_calls_* theorems) == the number of Base.__new__ calls for the 13 chain classes measured on the real parser, on random expressions over plain operands and on the V/N families, both standards.')
 ASSUMPTIONS = ["a bound for unseen n is an extrapolation from the measured sizes; the theorems bound the modelled algorithms "
                "(eval_fuel_mono, parse_cache_once), the leaf classes' own cost is measured",
-               "the token-level cost model Fp.Expr.chainCalls is exact except where `/=` stands directly in front of a defined unary "
-               "operator (string-level `/`+`=` overlap, 2 calls more in the real parser): such expressions are counted, not compared"]
-TIE_MODULES = ["FparserModel.Block", "FparserModel.Expr", "FparserModel.ExprCost"]
+               "the token-level cost model Fp.Expr.chainCalls is exact except for expressions that contain both `/=` and a defined operator "
+               "(string-level `/`+`=` overlap after the cut at the dotted word, 2 calls more in the real parser): such expressions are counted, not compared"]
+TIE_MODULES = ["FparserModel.Block", "FparserModel.Expr", "FparserModel.ExprCost", "FparserModel.Primary", "FparserModel.PrimaryPins", "FparserModel.Generated.PrimaryTables"]
 
 BUDGET = 1500000
 
@@ -268,14 +268,15 @@ def run_cost_cosim(case):
             if CE.in_known_boundary(c) or CE.in_lexing_boundary(c):
                 continue
             ws = [w.lstrip("~").lower() for w in c["words"]]
-            if any(a == "/=" and b.startswith(".") and b.endswith(".") and b not in (".not.", ".true.", ".false.") and not b[1:2] == "@"
-                   for a, b in zip(ws, ws[1:])):
-                # `/=` directly in front of a defined unary operator: Expr.match cuts the text
-                # at the dotted word first and the left part then ends in `/=`, which the
-                # string-level mult_op pattern splits at its `/` (two more constructor calls
-                # than the token-level model, whose `/=` is one token: the `/=` gap of
-                # Fp.ExprLex, see parse_string_refines).  Counted, not compared.
-                res["counts"]["cost:ne-before-defined-unary"] = res["counts"].get("cost:ne-before-defined-unary", 0) + 1
+            INTR = (".not.", ".and.", ".or.", ".eqv.", ".neqv.", ".eq.", ".ne.", ".lt.", ".le.", ".gt.", ".ge.", ".true.", ".false.")
+            has_def = any(w.startswith(".") and w.endswith(".") and len(w) > 2 and not w[1:2] == "@" and w not in INTR for w in ws)
+            if "/=" in ws and has_def:
+                # `/=` together with a defined operator: Expr.match cuts the text at the dotted
+                # word first; a part that then ends in (or contains a dangling) `/=` is split by
+                # the string-level mult_op pattern at its `/` (two more constructor calls than the
+                # token-level model, whose `/=` is one token: the `/=` gap of Fp.ExprLex, see
+                # parse_string_refines).  Counted, not compared.
+                res["counts"]["cost:ne-with-defined-op"] = res["counts"].get("cost:ne-with-defined-op", 0) + 1
                 continue
         rp = m.ask("exprcost", " ".join(c["words"]))[0].split()
         got, kind = real_chain_calls(c["text"], std)
@@ -349,6 +350,7 @@ def cases(tier, seed):
 
 
 def run(tier, rep, st):
+    util.sub_cosim(rep, tier, "cosim_primary", "Fp.Primary", 40, 400)
     results = engine.run_cases(__name__, cases(tier, rep.seed), rep)
     rep.evaluations = sum(r.get("evals", 0) for r in results)
     rep.coverage["tables"] = {r["_case"]["family"] + "/" + r["_case"].get("std", ""): r.get("table") for r in results
